@@ -18,6 +18,15 @@ type Conn struct {
 
 func (conn Conn) RemoteCall() string { return conn.remoteCall }
 
+// bufferedConn reads through the buffered reader used during login, so data
+// that arrived together with the last login line is not lost.
+type bufferedConn struct {
+	net.Conn
+	r *bufio.Reader
+}
+
+func (conn bufferedConn) Read(p []byte) (int, error) { return conn.r.Read(p) }
+
 type listener struct{ net.Listener }
 
 // Starts a new net.Listener listening for incoming connections.
@@ -54,5 +63,5 @@ func (ln listener) Accept() (net.Conn, error) {
 	fmt.Fprintf(conn, "Password :\r")
 	_, err = reader.ReadString('\r') //TODO
 
-	return &Conn{conn, remoteCall}, err
+	return &Conn{bufferedConn{conn, reader}, remoteCall}, err
 }
